@@ -37,12 +37,34 @@ func init() {
 		Run: func(r *simrt.Run) Outcome {
 			return c11ProbeProgram("Decl e0(A0) bound [/fruit].\ne0(/fruit/pear).\nDecl p0(A0) bound [fn:Singleton(/fruit/apple)].\np0(X) :- e0(X).\n")
 		}}, {
+		Key:  "struct-extra-field-accepted",
+		Desc: "Decl p0(X) bound [fn:Struct(/a, /number)]. p0({/a: 1, /b: \"x\"}). - statically a struct with more fields conforms, the run-time check wants exactly the declared fields",
+		Run: func(r *simrt.Run) Outcome {
+			return c11ProbeProgram("Decl p0(X) bound [fn:Struct(/a, /number)].\np0({/a: 1, /b: \"x\"}).\n")
+		}}, {
+		Key:  "optional-field-absent-accepted",
+		Desc: "Decl p0(X) bound [fn:Struct(/id, /number, fn:opt(/tag, /string))]. p0({/id: 1}). - accepted statically, the run-time check counts the optional field as missing",
+		Run: func(r *simrt.Run) Outcome {
+			return c11ProbeProgram("Decl p0(X) bound [fn:Struct(/id, /number, fn:opt(/tag, /string))].\np0({/id: 1}).\n")
+		}}, {
+		Key:  "tagged-union-unknown-tag-accepted",
+		Desc: "Decl p0(E) bound [fn:TaggedUnion(/kind, /move, fn:Struct(/x, /number), /quit, fn:Struct())]. p0({/kind: /bogus, /x: 1}). - the bounds checker types the tag field as /name (expandTaggedUnionForBounds), the run-time check wants one of the declared tags",
+		Run: func(r *simrt.Run) Outcome {
+			return c11ProbeProgram("Decl p0(E) bound [fn:TaggedUnion(/kind, /move, fn:Struct(/x, /number), /quit, fn:Struct())].\np0({/kind: /bogus, /x: 1}).\n")
+		}}, {
+		Key:  "struct-field-lookup-confuses-type-and-name",
+		Desc: "fn:Struct(/a, /b, /b, /number): the type of field /a is spelled like the name of the next field; :match_field(S, /b, X) must give X the type /number, foo bound [/b] must not pass",
+		Run: func(r *simrt.Run) Outcome {
+			return c11ProbeProgramPred("Decl bar(X) bound [fn:Struct(/a, /b, /b, /number)].\nDecl p0(X) bound [/b].\nbar({/a: /b/c, /b: 1}).\np0(X) :- bar(S), :match_field(S, /b, X).\n")
+		}}, {
 		Key:  "empty-list-in-two-list-types",
 		Desc: "the empty list is a member of fn:List(/string) and of fn:List(/number): a join of the two must keep that alternative, p0([]) is outside p0's declared bounds",
 		Run: func(r *simrt.Run) Outcome {
 			return c11ProbeProgram("Decl e0(A0) bound [fn:List(/string)] bound [/number].\ne0([]).\nDecl e1(A0, A1) bound [fn:Union(fn:List(/number), /number), /number].\ne1([], 1).\nDecl p0(A0) bound [/number] bound [/string].\np0(X) :- e0(X), e1(X, W1).\n")
 		}}}})
 }
+
+func c11ProbeProgramPred(text string) Outcome { return c11ProbeProgram(text) }
 
 func c11ProbeProgram(text string) Outcome {
 	{
